@@ -753,6 +753,69 @@ func c03CheckBuilder(c *Ctx, sqlPk *packages.Package, typeName, op, mname string
 		return true
 	})
 	isDef := func(n ast.Node) bool { return n == defNode || loopHeads[n] }
+	// ---- rounding of fractional keys on integer columns ---------------------------------------
+	// `key = floor(key)` / `ceil(key)` before the conversion, optionally with a flag `exclude` that
+	// records whether rounding changed the key. For a key strictly between the integers n and n+1 the
+	// comparison accepts {v<=n} ('<' accepted) and/or {v>=n+1} ('>' accepted), never '='; the keyed
+	// range built from the rounded key r must denote exactly that set of integers.
+	roundDir := "" // "floor" | "ceil"
+	roundedObjs := map[types.Object]bool{}
+	ast.Inspect(fd.Body, func(n ast.Node) bool {
+		as, ok := n.(*ast.AssignStmt)
+		if !ok || len(as.Rhs) != 1 || len(as.Lhs) != 1 {
+			return true
+		}
+		call, ok := ast.Unparen(as.Rhs[0]).(*ast.CallExpr)
+		if !ok {
+			return true
+		}
+		fn := Callee(info, call)
+		if fn == nil || fn.Pkg() != sqlPk.Types || (fn.Name() != "floor" && fn.Name() != "ceil") {
+			return true
+		}
+		if roundDir != "" && roundDir != fn.Name() {
+			roundDir = "mixed"
+		} else {
+			roundDir = fn.Name()
+		}
+		if id := identOf(as.Lhs[0]); id != nil {
+			if o := info.Defs[id]; o != nil {
+				roundedObjs[o] = true
+			} else if o := info.Uses[id]; o != nil {
+				roundedObjs[o] = true
+			}
+		}
+		return true
+	})
+	fracFlags := map[types.Object]bool{} // bool variables meaning "rounding changed the key"
+	ast.Inspect(fd.Body, func(n ast.Node) bool {
+		as, ok := n.(*ast.AssignStmt)
+		if !ok || len(as.Rhs) != 1 || len(as.Lhs) != 1 {
+			return true
+		}
+		be, ok := ast.Unparen(as.Rhs[0]).(*ast.BinaryExpr)
+		if !ok || be.Op != token.NEQ {
+			return true
+		}
+		mentionsRounded := false
+		ast.Inspect(be, func(m ast.Node) bool {
+			if id, ok := m.(*ast.Ident); ok && roundedObjs[info.Uses[id]] {
+				mentionsRounded = true
+			}
+			return true
+		})
+		if !mentionsRounded {
+			return true
+		}
+		if id := identOf(as.Lhs[0]); id != nil {
+			if o := info.Uses[id]; o != nil {
+				fracFlags[o] = true
+			} else if o := info.Defs[id]; o != nil {
+				fracFlags[o] = true
+			}
+		}
+		return true
+	})
 	reachedAny := map[*ast.CallExpr]bool{}
 	for _, sit := range []struct {
 		name  string
@@ -806,6 +869,61 @@ func c03CheckBuilder(c *Ctx, sqlPk *packages.Package, typeName, op, mname string
 			}
 		}
 		c.Check(okAll, "C03-F", key, defNode.Pos(), "", msg)
+	}
+	if roundDir == "floor" || roundDir == "ceil" {
+		for _, fracSit := range []bool{false, true} {
+			fr := fracSit
+			extra := func(cond ast.Expr) (bool, bool) {
+				e := ast.Unparen(cond)
+				neg := false
+				if u, ok := e.(*ast.UnaryExpr); ok && u.Op == token.NOT {
+					neg, e = true, ast.Unparen(u.X)
+				}
+				if id, ok := e.(*ast.Ident); ok && fracFlags[info.Uses[id]] {
+					return fr != neg, true
+				}
+				return false, false
+			}
+			union, any := 0, false
+			for _, n := range c03ReachedWith(g, defPt, isDef, mkEdgeOK(cirConst("InRange")), extra) {
+				for _, cc := range ctorIn(n) {
+					if cc.keyed {
+						union |= cc.den
+						any = true
+					}
+				}
+			}
+			key := fmt.Sprintf("%s/rounding=%s/fractional=%v", prefix, roundDir, fr)
+			if !any {
+				c.Undecided("C03-F", key, defNode.Pos(), "no keyed range reachable")
+				continue
+			}
+			exp := want
+			if fr {
+				// classes of integers relative to the rounded key r: v<r, v=r, v>r
+				exp = 0
+				if roundDir == "floor" { // r = n: accepted '<' means v<=n, accepted '>' means v>=n+1
+					if want&c03Lt != 0 {
+						exp |= c03Lt | c03Eq
+					}
+					if want&c03Gt != 0 {
+						exp |= c03Gt
+					}
+				} else { // r = n+1
+					if want&c03Lt != 0 {
+						exp |= c03Lt
+					}
+					if want&c03Gt != 0 {
+						exp |= c03Eq | c03Gt
+					}
+				}
+			}
+			c.Check(union == exp, "C03-F", key, defNode.Pos(), c03SetString(exp),
+				fmt.Sprintf("integer column, key %s: %s accepts the integers in %s relative to %s(key), but the builder scans %s — a row equal to the rounded key is lost or gained only on the index path",
+					map[bool]string{true: "with a fractional part", false: "integral"}[fr], typeName, c03SetString(exp), roundDir, c03SetString(union)))
+		}
+	} else if roundDir == "mixed" {
+		c.Undecided("C03-F", prefix+"/rounding", fd.Pos(), "both floor and ceil are applied in one builder method")
 	}
 	if undecidedCond {
 		c.Undecided("C03-F", prefix+"/conditions", defNode.Pos(), "a branch condition on the ConvertInRange value could not be resolved")
@@ -1208,4 +1326,20 @@ func c03FoldArm(c *Ctx, exPk, sqlPk *packages.Package, arm *ast.CaseClause, resu
 		return nil, fmt.Errorf("arm result is not an expression built from the known constructors")
 	}
 	return e, nil
+}
+
+
+// c03ReachedWith walks the CFG like cirFlow.Reached with an additional resolver for flag conditions.
+func c03ReachedWith(g *cfg.CFG, from CFGPoint, barrier func(ast.Node) bool, base func(b *cfg.Block, succ int) bool, extra func(cond ast.Expr) (bool, bool)) []ast.Node {
+	edge := func(b *cfg.Block, succ int) bool {
+		if len(b.Nodes) > 0 && len(b.Succs) == 2 {
+			if last, ok := b.Nodes[len(b.Nodes)-1].(ast.Expr); ok {
+				if t, decided := extra(last); decided {
+					return (succ == 0) == t
+				}
+			}
+		}
+		return base(b, succ)
+	}
+	return ReachableNodes(g, from, barrier, edge)
 }
